@@ -698,7 +698,7 @@ def check(ctx):
             plans += t.plans_from_dump('dmrg2_min1', 'pkl', 2, 0)
             plans += t.plans_from_dump('tebd_trunc', 'pkl', 2, 1)
             sig = t.plans_sigint('dummy', 'pkl')
-            plans += [sig[t.rnd.randrange(len(sig))], sig[7]]
+            plans += [sig[7], t.rnd.choice(sig[:7] + sig[8:])]
         else:
             for wl, fmt in pairs:
                 if WL[wl]['kind'] == 'dummy':
